@@ -92,6 +92,7 @@ pub fn ls_check(id: &str) -> Option<LsCheck> {
                 w: w(|w| {
                     w.get = 22;
                     w.getttl = 12;
+                    w.gethold = 8;
                     w.getmut = 6;
                     w.adv = 26;
                     w.tick = 10;
@@ -741,10 +742,12 @@ pub fn stress_parts(id: &str) -> Vec<StressPart> {
     let p = |kind, quick, thorough, async_pct| StressPart { kind, quick, thorough, async_pct };
     match id {
         "C02" => vec![p(Kind::Invariants, 640, 12000, 25), p(Kind::Validated, 200, 4000, 25)],
-        "C01" | "C06" | "C08" | "C17" => vec![p(Kind::Invariants, 640, 12000, 25)],
+        "C17" => vec![p(Kind::Invariants, 640, 12000, 25), p(Kind::Lookups, 240, 4000, 35)],
+        "C01" | "C06" | "C08" => vec![p(Kind::Invariants, 640, 12000, 25)],
         "C11" => vec![p(Kind::Invariants, 640, 12000, 25)],
         "C05" => vec![p(Kind::Reclaim, 96, 2000, 50)],
-        "C09" => vec![p(Kind::Validated, 320, 6000, 25)],
+        "C09" => vec![p(Kind::Validated, 480, 8000, 25)],
+        "C15" => vec![p(Kind::Lookups, 480, 8000, 35)],
         "C10" => vec![p(Kind::Barrier, 640, 12000, 25), p(Kind::WaitRace, 640, 12000, 25)],
         "C12" => vec![p(Kind::Close, 960, 16000, 30)],
         "C20" => vec![p(Kind::Config, 960, 16000, 30)],
@@ -755,6 +758,7 @@ pub fn stress_parts(id: &str) -> Vec<StressPart> {
             p(Kind::Close, 640, 10000, 100),
             p(Kind::Config, 320, 6000, 100),
             p(Kind::Reclaim, 96, 2000, 100),
+            p(Kind::Lookups, 240, 4000, 100),
         ],
         _ => vec![],
     }
